@@ -71,7 +71,7 @@ def case(item):
 
 
 def cases_for(tier):
-    cs = streams.tile_grids(tier == "thorough")
+    cs = streams.tile_grids(tier == "thorough") + streams.palette_blocks(False)   # the 8 palette-block sessions in both tiers
     cs += streams.bound01(sizes=((64, 64),), contents=("grad",), n=5)
     for (w, h) in ((66, 70), (72, 64), (64, 88), (144, 112)):
         for c in ("noise", "flat", "max", "min", "grad"):
